@@ -123,7 +123,28 @@ fn run(case: &Val) -> Val {
         std::env::set_current_dir(root.path()).expect("chdir into temp root");
     }
     let _cwd = CwdGuard(rel);
+    // What a case does not say and must not matter: the appender / roller is built by its builder, or DECLARED in a
+    // configuration document and built by the deserializer registered for its kind (every third case): the same
+    // path text, expanded the same single time.
+    static TURN: std::sync::atomic::AtomicUsize = std::sync::atomic::AtomicUsize::new(0);
+    let declared = TURN.fetch_add(1, std::sync::atomic::Ordering::SeqCst) % 3 == 1;
+    let jstr = |t: &str| serde_json::to_string(t).expect("json string");
     let ok = match site {
+        0 if declared => {
+            let doc = format!("{{\"path\": {}}}", jstr(&at(&path)));
+            log4rs::config::Deserializers::default()
+                .deserialize::<dyn log4rs::append::Append>("file", serde_json::from_str(&doc).expect("document"))
+                .is_ok()
+        }
+        1 if declared => {
+            let doc = format!(
+                "{{\"path\": {}, \"policy\": {{\"trigger\": {{\"kind\": \"size\", \"limit\": \"1 gb\"}}, \"roller\": {{\"kind\": \"delete\"}}}}}}",
+                jstr(&at(&path))
+            );
+            log4rs::config::Deserializers::default()
+                .deserialize::<dyn log4rs::append::Append>("rolling_file", serde_yaml::from_str(&doc).expect("document"))
+                .is_ok()
+        }
         0 => FileAppender::builder()
             .build(at(&path))
             .is_ok(),
@@ -141,7 +162,12 @@ fn run(case: &Val) -> Val {
             for (k, _) in &pairs {
                 std::env::set_var(k, "decoy-at-build-time");
             }
-            let built = FixedWindowRoller::builder().build(&at(&pattern), count);
+            let built: anyhow::Result<Box<dyn log4rs::append::rolling_file::policy::compound::roll::Roll>> = if declared {
+                let doc = format!("{{\"pattern\": {}, \"count\": {}}}", jstr(&at(&pattern)), count);
+                log4rs::config::Deserializers::default().deserialize("fixed_window", serde_json::from_str(&doc).expect("document"))
+            } else {
+                FixedWindowRoller::builder().build(&at(&pattern), count).map(|r| Box::new(r) as _)
+            };
             for (k, v) in &pairs {
                 std::env::set_var(k, v);
             }
